@@ -88,6 +88,21 @@ LawMapIsBindReturn == Is("functor") =>
   /\ \A d \in D : EitFromOptional(s.o, d).res = IF IsSome(s.o) THEN Succ(s.o.v) ELSE Fail(d)
   /\ \A d \in D : EitSuccessOpt(EitFromOptional(s.o, d).res).res = s.o
 
+\* round 3: the variadic forms of maybe_multi with one and with three optionals (cases of the functor
+\* group; the ternary table is built from the two unary ones): one optional = maybe; three optionals =
+\* maybe of apply, the transform is called iff all three are set and with the values in argument order
+LawMaybeMultiVariadic == Is("functor") =>
+  LET t3 == [i \in 1..N |-> [j \in 1..N |-> [k \in 1..N |->
+               Ap1(s.f, ((i - 1) + Ap1(s.g, j - 1) + 2 * (k - 1)) % N)]]]
+  IN /\ \A d \in D : OptMaybeMulti(d, s.f, <<s.o>>) = OptMaybe(s.o, d, s.f)
+     /\ \A d \in D, o2 \in {None, Some(0), Some(N - 1)}, o3 \in OD :
+          LET os == <<s.o, o2, o3>>
+              m3 == OptMaybeMulti(d, t3, os)
+              all == IsSome(s.o) /\ IsSome(o2) /\ IsSome(o3)
+          IN /\ m3.res = OptMaybe(OptApply(t3, os).res, d, Id).res
+             /\ m3.calls = (IF all THEN <<Call("f", 0, <<s.o.v, o2.v, o3.v>>)>> ELSE <<Call("d", 0, <<>>)>>)
+             /\ (all => m3.res = Ap1(s.f, (s.o.v + Ap1(s.g, o2.v) + 2 * o3.v) % N))
+
 (* ------------------------------------------------------------------ optional monad *)
 LawOptLeftIdentity == Is("optmonad") => \A x \in D : OptBind(Some(x), s.k).res = Ap1(s.k, x)
 LawOptRightIdentity == Is("optmonad") => OptBind(s.o, OptRet).res = s.o
@@ -356,14 +371,28 @@ LawSequenceError == Is("seqerr") =>
      /\ \A j \in DOMAIN r.calls : r.calls[j] = Call("f", 0, <<s.xs[j]>>)
 \* four alternatives: assignment, access, dynamic casts
 LawVariantAssign == Is("variant4") =>
-  /\ VarAssign(s.v, s.w).res = [dst |-> s.w, src_t |-> s.w.t]
-  /\ VarHoldsType(s.w.t, VarAssign(s.v, s.w).res.dst).res
+  /\ VarAssign(s.v, s.w).res = s.w /\ VarAssignSrc(s.v, s.w).res = s.w.t
+  /\ VarHoldsType(s.w.t, VarAssign(s.v, s.w).res).res
   /\ Cardinality({i \in 1..4 : VarHoldsType(i, s.v).res}) = 1
   /\ (IsSome(VarToOptional(s.i, s.v).res) <=> s.v.t = s.i)
   /\ VarRefWrite(s.i, s.v, s.y).res = (IF s.v.t = s.i THEN Var(s.i, s.y) ELSE s.v)
   /\ VarToOptional(s.i, VarRefWrite(s.i, s.v, s.y).res).res = (IF s.v.t = s.i THEN Some(s.y) ELSE None)
   /\ VarMatch(s.v, <<Id, Id, Id, Id>>).calls = <<Call("f", s.v.t, <<s.v.v>>)>>
   /\ VarOutput(s.v).res = <<48 + s.v.v>>
+\* round 3: the accessors agree with the other views of the tagged union (four alternatives), compare
+\* with the equality table is ==, != is its negation
+LawVarAccessors == Is("variant4") =>
+  LET ix == VarIndex(s.v).res
+      eq4 == [t \in 1..4 |-> [i \in 1..N |-> [j \in 1..N |-> i = j]]]
+  IN /\ ix.idx \in 1..4 /\ ~ix.invalid
+     /\ VarHoldsType(ix.idx, s.v).res
+     /\ VarToOptional(ix.idx, s.v).res = Some(VarGet(s.v).res)
+     /\ (VarIndex(s.v).res.idx = VarIndex(s.w).res.idx /\ VarGet(s.v).res = VarGet(s.w).res) <=> VarEq(s.v, s.w).res
+     /\ VarIndex(VarAssign(s.v, s.w).res).res.idx = s.w.t
+     /\ VarCompare(s.v, s.w, eq4).res = VarEq(s.v, s.w).res
+     /\ Len(VarCompare(s.v, s.w, eq4).calls) = (IF s.v.t = s.w.t THEN 1 ELSE 0)
+     /\ VarNe(s.v, s.w).res = ~VarEq(s.v, s.w).res
+     /\ (VarLess(s.v, s.w).res => VarIndex(s.v).res.idx <= VarIndex(s.w).res.idx)
 LawDynamicCast == Is("variant4") =>
   LET r == VarDynamicCast(s.types, s.castable).res IN
   /\ (r = None <=> \A i \in DOMAIN s.types : s.types[i] \notin s.castable)
